@@ -188,3 +188,32 @@ def link(spec, ex, st, b, t, nb, kind):
             v1 = z3.Select(ex.mem_array(st, vsort), vaddr)
             _slot_effects(spec, ex, st, ('tviewOf', 'slotbOf', 'slotiOf'), t, nbp, z3.BitVecVal(i, 64), z3.BoolVal(False), occ,
                           k1, k1, vopt.constructor(1)(v1), z3.BoolVal(False))
+
+
+TOPHASH_MASK = ((1 << 20) - 1) << 44
+
+
+def lane_goal(ex, st, info, p, newval):
+    """Word-update discipline for the packed bucket words (part of representation-invariant preservation, decidable at
+    the store): a store to `bucketOf.meta` changes at most one of the five byte lanes (bits 40..63 never); a store to
+    `bucket.topHashMutex` changes at most one of: the lock bit, or the presence bit + 20-bit top hash of one slot.  A
+    store computed from another bucket's word, or one that rewrites a neighbour's lane, corrupts entries that the
+    operation is not about (C03/C04: entries lost; C11: contents depend on layout)."""
+    sname, fname = info[0], info[1]
+    if (sname, fname) == ('bucketOf', 'meta'):
+        lanes = [0xFF << (8 * i) for i in range(5)]
+        tags = ['C04', 'C11']
+    elif (sname, fname) == ('bucket', 'topHashMutex'):
+        lanes = [1] + [(TOPHASH_MASK >> (20 * i)) | (1 << (i + 1)) for i in range(3)]
+        tags = ['C03', 'C11']
+    else:
+        return None
+    if not z3.is_expr(newval) or newval.sort() != BV64:
+        return None
+    if p.cid is not None and p.cid < 0 and p.cid not in (getattr(st, 'escaped', None) or ()):
+        return None         # initialisation of a bucket that only this path can reach: constrained when it is linked
+    old = ex.load_leaf(st, BV64, p)
+    diff = newval ^ old
+    full = (1 << 64) - 1
+    goal = z3.Or(*[(diff & z3.BitVecVal(full & ~m, 64)) == 0 for m in lanes])
+    return ('%s.%s.one-lane' % (sname, fname), goal, tags)
